@@ -918,13 +918,13 @@ func doCheck(prop, tier string, seed uint64, nworkers, maxSec int, noMin bool) i
 			jc := &judgeClient{lane: lanes[0]}
 			rs, _, _ := jc.do(&proto.Request{Op: "describe", Prop: prop, Tier: "quick", Seed: seed, Idx: r.Idx})
 			jc.close()
-			rp := Replay{Property: prop, Lane: fmt.Sprintf("race/GOMAXPROCS=%d", r.Procs), Tier: tier, Seed: seed, Idx: r.Idx, Class: "data-race", Detail: shorten(r.Report, 3000), Case: rs.Case,
+			rp := Replay{Property: prop, Lane: fmt.Sprintf("race/GOMAXPROCS=%d", r.Procs), Tier: tier, Seed: seed, Idx: r.Idx, Class: raceClass(r), Detail: shorten(r.Report, 3000), Case: rs.Case,
 				Note: "race lane (real scheduler, -race build): the replay re-runs this case 50 times under the race detector; reports are true positives but their occurrence is not deterministic"}
 			path := filepath.Join(outRoot, "replays", fmt.Sprintf("%s-%d-race-%d.json", prop, seed, r.Idx))
 			b, _ := json.MarshalIndent(&rp, "", " ")
 			os.WriteFile(path, b, 0o644)
 			vlines = append(vlines, fmt.Sprintf("VIOLATION property=%s replay=%s", prop, path))
-			fmt.Printf("  [race lane, GOMAXPROCS=%d] data race in case %d: %s\n", r.Procs, r.Idx, shorten(strings.ReplaceAll(r.Report, "\n", " | "), 500))
+			fmt.Printf("  [race lane, GOMAXPROCS=%d] "+raceClass(r)+" in case %d: %s\n", r.Procs, r.Idx, shorten(strings.ReplaceAll(r.Report, "\n", " | "), 500))
 		}
 	}
 	var kh []string
@@ -1080,7 +1080,7 @@ func doReplay(path string) int {
 		fmt.Fprintln(os.Stderr, "HARNESS: bad replay file:", err)
 		return 2
 	}
-	if rp.Class == "data-race" {
+	if rp.Class == "data-race" || rp.Class == "result-differs-real-scheduler" {
 		procs := 2
 		fmt.Sscanf(rp.Lane, "race/GOMAXPROCS=%d", &procs)
 		rs, _, h := runRaceProc(rp.Seed, rp.Idx+1, 0, 1, rp.Idx, procs, 50)
@@ -1184,6 +1184,7 @@ type raceReport struct {
 	Idx    int
 	Procs  int
 	Report string
+	Kind   string
 }
 
 var raceBin = envOr("VERIF_RACE_BIN", filepath.Join(root, ".build", "race.test"))
@@ -1215,6 +1216,8 @@ func runRaceProc(seed uint64, n, shard, nsh, only, procs, count int) (reports []
 				reports = append(reports, raceReport{Idx: cur, Procs: procs, Report: block})
 			}
 			i = j
+		case strings.HasPrefix(l, "DIFF "):
+			reports = append(reports, raceReport{Idx: cur, Procs: procs, Report: "same arguments, different results under the real scheduler: " + l[5:], Kind: "result-differs-real-scheduler"})
 		case strings.HasPrefix(l, "HANG"):
 			harness = fmt.Sprintf("race lane: case %d did not finish within 20 s", cur)
 		}
@@ -1276,10 +1279,17 @@ func raceEvidence(prop string, r raceSummary) interface{} {
 		return "not applicable to this property"
 	}
 	return map[string]interface{}{
-		"kind":            "R1: -race build, real Go scheduler, verifYield hooks used only for timing perturbation; supplementary, not replayable",
+		"kind":            "R1: -race build, real Go scheduler at GOMAXPROCS 1/2/16, verifYield hooks used only for timing perturbation; race detector reports and result differences between three executions of the same case are violations; supplementary, not replayable",
 		"gomaxprocs":      r.Procs,
 		"case_executions": r.Cases,
 		"reports":         len(r.Reports),
 		"wall_s":          r.WallS,
 	}
+}
+
+func raceClass(r raceReport) string {
+	if r.Kind != "" {
+		return r.Kind
+	}
+	return "data-race"
 }
